@@ -337,7 +337,18 @@ func streamHTTP(o opts) {
 				}
 			}
 		})
-		srv := httptest.NewUnstartedServer(mw.Wrap(handler))
+		// every second middleware sits behind an outer handler that pre-sets a response header (CORS / security-header
+		// middleware in front of the cache): the snapshot taken on a miss contains it, and a hit must REPLACE it
+		outer := mi%2 == 1
+		var root http.Handler = mw.Wrap(handler)
+		if outer {
+			inner := root
+			root = http.HandlerFunc(func(rw http.ResponseWriter, req *http.Request) {
+				rw.Header()["X-Outer"] = []string{"o1"}
+				inner.ServeHTTP(rw, req)
+			})
+		}
+		srv := httptest.NewUnstartedServer(root)
 		srv.Config.ErrorLog = log.New(io.Discard, "", 0)
 		srv.Start()
 		cl := &http.Client{Timeout: 10 * time.Second, CheckRedirect: func(*http.Request, []*http.Request) error { return http.ErrUseLastResponse }}
@@ -377,6 +388,9 @@ func streamHTTP(o opts) {
 				method = pick(r, []string{"POST", "PUT"})
 			}
 			status := pick(r, []int{200, 200, 200, 201, 404, 500, 301, 410, 403})
+			if outer {
+				acts = append(acts, hact{kind: 1, k: "X-Outer", v: "o1"}) // what the outer handler did before the cache ran
+			}
 			// headers before commit
 			nh := r.Intn(4)
 			for i := 0; i < nh; i++ {
@@ -390,7 +404,7 @@ func streamHTTP(o opts) {
 						flagSecondLine = true
 					}
 				case 2:
-					acts = append(acts, hact{kind: 1, k: pick(r, []string{"Content-Type", "X-Custom", "Set-Cookie", "Server", "X-Request-Id", "x-lower"}), v: pick(r, []string{"text/plain", "a=1", "v"})})
+					acts = append(acts, hact{kind: 1, k: pick(r, []string{"Content-Type", "X-Custom", "Set-Cookie", "Server", "X-Request-Id", "x-lower", "X-Lower"}), v: pick(r, []string{"text/plain", "a=1", "v"})})
 				case 3:
 					acts = append(acts, hact{kind: 2, k: "X-Multi", v: fmt.Sprint(r.Intn(9))})
 				case 4:
